@@ -258,3 +258,10 @@ pub proof fn alg_neg_mul(q: real, g: real)
 {
     assert(-(q * g) == (-q) * g) by(nonlinear_arith);
 }
+
+// ---- linear interpolation of dual numbers: g1 + w*(1*g2 + (-1)*g1) == (1-w)*g1 + w*g2
+pub proof fn alg_lerp(g1: real, g2: real, w: real)
+    ensures 1real * g1 + 1real * (w * (1real * g2 + (-1real) * g1)) == (1real - w) * g1 + w * g2,
+{
+    assert(1real * g1 + 1real * (w * (1real * g2 + (-1real) * g1)) == (1real - w) * g1 + w * g2) by(nonlinear_arith);
+}
